@@ -4,7 +4,7 @@
  "file": "qbe.c", "function": "emitvalue", "also_functions": ["emitname", "emitclass"],
  "properties": {"C03": "contract", "C01": "contract", "C19": "safety"},
  "mode": "harness",
- "unwind": 44,
+ "unwind": 20, "cflags": ["-DOE_MAX=16"],
  "kind": "proof-const-unwind",
  "timeout": 120, "replay": false,
  "expects": ["assertion_verif"],
@@ -43,7 +43,6 @@ harness(void)
 	int kind;
 
 	oe_reset();
-	oe_name[0] = nm;
 	__CPROVER_assume((in_kind & ~0x1f) == 0);          /* any kind, with or without the thread flag */
 	kind = in_kind & 0xf;
 	val.kind = in_kind;
